@@ -175,7 +175,18 @@ pub fn excerpt_as_bigint(
 	-> Result<util::BigInt, ()>
 {
 	let chars: Vec<char> = excerpt.chars().collect();
-	assert!(chars.len() >= 1);
+
+	if chars.len() == 0
+	{
+		if let Some(report) = report
+		{
+			report.error_span(
+				"invalid value",
+				span);
+		}
+		
+		return Err(());
+	}
 
 	let (radix, mut index) = parse_radix(&chars, 0);
 	
